@@ -336,8 +336,9 @@ class Connection(object):
                 # finding the proxy's class may need a round trip (HANDLE_INSPECT) whose nested serve() can
                 # receive this very object: look the cache up (again) only once the class is known
                 cls = self._netref_class(id_pack)
-            if id_pack in self._proxy_cache:
-                proxy = self._proxy_cache[id_pack]
+            # one lookup: the proxy is only weakly held, a cyclic-GC run may take it between two
+            proxy = self._proxy_cache.get(id_pack)
+            if proxy is not None:
                 proxy.____refcount__ += 1  # if cached then remote incremented refcount, so sync refcount
             else:
                 if cls is None:  # the cached proxy died between the two lookups
